@@ -25,6 +25,15 @@ Proof.
   unfold ns_spec. destruct (_ || _)%bool; [discriminate|]. destruct (first_bad s); discriminate.
 Qed.
 
+(* all constructors and conversions agree: each of the four other bodies, as translated, is new *)
+Theorem C13_source_constructors_agree : forall s,
+  tr_normalized_string_from_str s = tr_normalized_string_new s /\
+  tr_normalized_string_from_string s = tr_normalized_string_new s /\
+  tr_normalized_string_try_from_str s = tr_normalized_string_new s /\
+  tr_normalized_string_try_from_string s = tr_normalized_string_new s.
+Proof. exact normalized_string_constructors_translated. Qed.
+
 Print Assumptions C13_source_new_is_spec.
+Print Assumptions C13_source_constructors_agree.
 Print Assumptions C13_source_accept_iff.
 Print Assumptions C13_source_no_panic.
